@@ -456,7 +456,11 @@ def run_property(prop, tier, seed, only=None, n_override=None, procs=None):
         print("note:", n_)
     for e in errors:
         print("HARNESS-ERROR:", e, file=sys.stderr)
+    seen_paths = set()
     for subname, path, msg in violations:
+        if path in seen_paths:
+            continue
+        seen_paths.add(path)
         print("violation in %s: %s" % (subname, msg[:1500]))
         print("VIOLATION property=%s replay=%s" % (prop, path))
     if violations:
